@@ -99,14 +99,14 @@ func sumFunc(arg query) func(query, iterator) interface{} {
 		switch typ := functionArgs(arg).Evaluate(t).(type) {
 		case query:
 			for node := typ.Select(t); node != nil; node = typ.Select(t) {
-				if v, err := strconv.ParseFloat(node.Value(), 64); err == nil {
+				if v, err := parseNumber(node.Value()); err == nil {
 					sum += v
 				}
 			}
 		case float64:
 			sum = typ
 		case string:
-			v, err := strconv.ParseFloat(typ, 64)
+			v, err := parseNumber(typ)
 			if err != nil {
 				panic(errors.New("sum() function argument type must be a node-set or number"))
 			}
@@ -116,6 +116,19 @@ func sumFunc(arg query) func(query, iterator) interface{} {
 	}
 }
 
+// parseNumber converts a string to a number as the XPath number() function does:
+// optional surrounding whitespace, an optional minus sign and decimal digits with at
+// most one '.'. Everything else strconv accepts (exponents, "Inf", hex, '+', '_') is
+// not an XPath number.
+func parseNumber(s string) (float64, error) {
+	s = strings.Trim(s, " \t\r\n")
+	digits := strings.TrimPrefix(s, "-")
+	if strings.Trim(digits, "0123456789.") != "" || strings.Trim(digits, ".") == "" || strings.Count(digits, ".") > 1 {
+		return 0, strconv.ErrSyntax
+	}
+	return strconv.ParseFloat(s, 64)
+}
+
 func asNumber(t iterator, o interface{}) float64 {
 	switch typ := o.(type) {
 	case query:
@@ -123,13 +136,13 @@ func asNumber(t iterator, o interface{}) float64 {
 		if node == nil {
 			return math.NaN()
 		}
-		if v, err := strconv.ParseFloat(node.Value(), 64); err == nil {
+		if v, err := parseNumber(node.Value()); err == nil {
 			return v
 		}
 	case float64:
 		return typ
 	case string:
-		v, err := strconv.ParseFloat(typ, 64)
+		v, err := parseNumber(typ)
 		if err == nil {
 			return v
 		}
